@@ -30,9 +30,12 @@ def run(c):
               "all-or-nothing, same result for the reversed change list; non-trivial = last step is a change set.  Plus the "
               "updateState clause: every chain of MC_CStateStore (change sets per block, no prunes) through the real "
               "cstate.updateState, compared with Increment(Update(NextValidators, changes), 1) and the shift of the three sets")
-    c.assumptions = ["TLC integers are 32-bit: priorities are compared at small powers; the cap clauses are replayed at a scale "
-                     "where the specification's Cap equals MaxTotalVotingPower (ok/error and membership only, since rounding "
-                     "is not scale-invariant)"]
+    c.assumptions = ["TLC integers are 32-bit: TLC evaluates the specification at small powers; the cap clauses are replayed at a "
+                     "scale where the specification's Cap equals MaxTotalVotingPower.  Rounding and the rescale threshold are not "
+                     "scale-invariant, so at that scale the specification speaks through harness/valset/ref_test.go, a "
+                     "line-by-line big-integer copy of ValidatorSet.tla that must reproduce TLC's result on EVERY generated "
+                     "transition at unit scale (any difference is an infrastructure error) and then gives the exact priorities "
+                     "and proposer at the large scale"]
     runs = [
         # tag, module, initp, cfg text, env
         ("hist3", "MC_ValidatorSet", (1, 1, 1), cfg_hist(1000000, "{1, 2, 3}", "{1, 3, 40}", 4, 2), {}, "{}"),
